@@ -1,7 +1,22 @@
 /-
 C10 — Results depend only on the logical content of an .skf, not on its history.
+
+* `T10_*_ignores_counts`  the stored `variant_count` never influences a later result
+* `Op`, `step`, `specStep`  the rewriting commands (merge, delete, weed with all options, reload),
+  what the modelled program does, and the documented effect on the plain table
+* `Good`  invariant of written files (`WF` and cells `≥ '-'`); sample names need not be distinct
+* `T10_refine`  one command: refused on both sides or on neither, results related by `Arr.abs`
+* `T10_history` (`_prefix`, `_align`)  any list of commands, refused ones skipped
+* `T10_obs_align(_I, _records)`, `T10_obs_distance`, `T10_obs_delete`, `T10_obs_weed`, `T10_obs_nk`,
+  bundled as `ObsEq` / `T10_obs`: observers see the table only up to row order
+* `specStep_equiv`, `T10_obs_step`, `T10_obs_modesWeed`, `T10_run_equiv`  further rewriting commands
+  as observers (the documented effects are well defined on tables up to row order)
+* `T10_history_obs`, `T10_history_fresh`, `T10_history_obs_step`  two histories with the same
+  documented table cannot be told apart
+Helper lemmas: `SkaModel/Lemmas/Hist.lean`.
 -/
 import SkaModel.Spec.Abs
+import SkaModel.Lemmas.Hist
 
 namespace SkaModel.Props.C10
 
@@ -33,5 +48,591 @@ theorem T10_delete_ignores_counts (a : Arr) (c : List Nat) (del : List String) :
 theorem T10_toDict_ignores_counts (a : Arr) (c : List Nat) :
     ({ a with counts := c } : Arr).toDict = a.toDict := by
   simp [Arr.toDict]
+
+/-! ## The operation language and its two semantics -/
+
+open SkaModel.Hist
+
+/-- one command that rewrites an .skf (each followed by save / reload) -/
+inductive Op where
+  /-- `ska merge cur others…` -/
+  | merge (others : List Arr)
+  /-- `ska delete` -/
+  | delete (names : List String)
+  /-- `ska weed` (weed file optional; `tf = floor(n * min_freq)`) -/
+  | weed (weedKmers : Option (List Nat)) (reverse : Bool) (tf : Nat) (famb : Bool) (ft : FilterType)
+      (mask gaps : Bool)
+  /-- save and load again -/
+  | reload
+
+/-- what the modelled program does to the file; `none` = refused (file unchanged) -/
+def step (W : Nat) (a : Arr) : Op → Option Arr
+  | .merge others => (Modes.merge W a others).toOption
+  | .delete names => Modes.delete a names
+  | .weed wk rev tf famb ft mask gaps => some (Modes.weed a wk rev tf famb ft mask gaps)
+  | .reload => some a
+
+/-- the row filter of `ska weed`: keep the passing rows and mask their cells -/
+def filterMask (t : Table) (tf : Nat) (famb : Bool) (ft : FilterType) (mask gaps : Bool) : Table :=
+  { names := t.names
+    rows := (t.filterRows (fun r => Table.passes tf famb (toSite ft) gaps r.2)).rows.map
+      (fun r => (r.1, Table.maskRow mask r.2)) }
+
+/-- the documented effect of each command on the plain table (`k`, `rc`: k-mer length and strand
+mode of the file, which only `merge` looks at) -/
+def specStep (t : Table) (k : Nat) (rc : Bool) : Op → Option Table
+  | .merge others =>
+    if ∀ b ∈ others, b.k = k ∧ b.rc = rc then some ((others.map Arr.abs).foldl Table.concat t) else none
+  | .delete names =>
+    if names = [] ∨ names.length = t.names.length ∨ ∃ n ∈ names, n ∉ t.names then none
+    else some (t.deleteSamples names)
+  | .weed wk rev tf famb ft mask gaps =>
+    let t1 := match wk with
+      | some ks => t.weed ks rev
+      | none => t
+    if tf > 0 ∨ ft ≠ .noFilter ∨ mask = true ∨ gaps = true then some (filterMask t1 tf famb ft mask gaps)
+    else some t1
+  | .reload => some t
+
+theorem specStep_merge (t : Table) (k : Nat) (rc : Bool) (others : List Arr) :
+    specStep t k rc (.merge others)
+      = if ∀ b ∈ others, b.k = k ∧ b.rc = rc then some ((others.map Arr.abs).foldl Table.concat t) else none :=
+  rfl
+
+theorem specStep_delete (t : Table) (k : Nat) (rc : Bool) (names : List String) :
+    specStep t k rc (.delete names)
+      = if names = [] ∨ names.length = t.names.length ∨ ∃ n ∈ names, n ∉ t.names then none
+        else some (t.deleteSamples names) := rfl
+
+theorem specStep_weed (t : Table) (k : Nat) (rc : Bool) (wk : Option (List Nat)) (rev : Bool) (tf : Nat)
+    (famb : Bool) (ft : FilterType) (mask gaps : Bool) :
+    specStep t k rc (.weed wk rev tf famb ft mask gaps)
+      = if tf > 0 ∨ ft ≠ .noFilter ∨ mask = true ∨ gaps = true then
+          some (filterMask (match wk with | some ks => t.weed ks rev | none => t) tf famb ft mask gaps)
+        else some (match wk with | some ks => t.weed ks rev | none => t) := rfl
+
+/-! ## The invariant -/
+
+/-- what every file written by `ska build / merge / delete / weed` satisfies: aligned containers,
+distinct k-mers, rows as wide as the name list, every cell `≥ '-'`. Distinct sample names are NOT
+required (a merge of files with a common sample name breaks that). -/
+def Good (a : Arr) : Prop := a.WF ∧ a.CellsGE
+
+/-- the two cell predicates in use (`C06.CellsGe45`, `Arr.CellsGE`) are the same -/
+theorem cellsGE_iff_cellsGe45 (a : Arr) : a.CellsGE ↔ Props.C06.CellsGe45 a.variants := Iff.rfl
+
+/-- the files named in a command are themselves good -/
+def OpGood : Op → Prop
+  | .merge others => ∀ b ∈ others, Good b
+  | _ => True
+
+/-! ## One step -/
+
+theorem weedCond_iff (tf : Nat) (ft : FilterType) (mask gaps : Bool) :
+    (decide (tf > 0) || ft != .noFilter || mask || gaps) = true
+      ↔ (tf > 0 ∨ ft ≠ .noFilter ∨ mask = true ∨ gaps = true) := by
+  have hft : (ft != .noFilter) = true ↔ ft ≠ .noFilter := by cases ft <;> decide
+  simp only [Bool.or_eq_true, decide_eq_true_eq, hft, or_assoc]
+
+theorem filter_abs (a : Arr) (hg : Good a) (tf : Nat) (famb : Bool) (ft : FilterType) (mask gaps : Bool) :
+    (a.filter tf famb ft mask gaps true).1.abs = filterMask a.abs tf famb ft mask gaps
+    ∧ Good (a.filter tf famb ft mask gaps true).1 := by
+  refine ⟨?_, Props.C06.T06_filter_WF a hg.1 tf famb ft mask gaps,
+    Props.C06.T06_filter_cellsGe45 a hg.2 tf famb ft mask gaps true⟩
+  unfold filterMask Table.filterRows
+  simp only [Arr.abs]
+  rw [Props.C06.T06_filter a hg.2 tf famb ft mask gaps]
+  rfl
+
+/-- the optional filter stage of `ska weed` -/
+theorem postFilter_abs (a : Arr) (hg : Good a) (tf : Nat) (famb : Bool) (ft : FilterType) (mask gaps : Bool) :
+    (if tf > 0 ∨ ft ≠ .noFilter ∨ mask = true ∨ gaps = true then some (filterMask a.abs tf famb ft mask gaps)
+      else some a.abs)
+      = some (if (decide (tf > 0) || ft != .noFilter || mask || gaps) = true
+          then (a.filter tf famb ft mask gaps true).1 else a).abs
+    ∧ Good (if (decide (tf > 0) || ft != .noFilter || mask || gaps) = true
+          then (a.filter tf famb ft mask gaps true).1 else a)
+    ∧ (if (decide (tf > 0) || ft != .noFilter || mask || gaps) = true
+          then (a.filter tf famb ft mask gaps true).1 else a).k = a.k
+    ∧ (if (decide (tf > 0) || ft != .noFilter || mask || gaps) = true
+          then (a.filter tf famb ft mask gaps true).1 else a).rc = a.rc := by
+  by_cases hc : (tf > 0 ∨ ft ≠ .noFilter ∨ mask = true ∨ gaps = true)
+  · rw [if_pos hc, if_pos ((weedCond_iff tf ft mask gaps).mpr hc)]
+    obtain ⟨e1, e2⟩ := filter_abs a hg tf famb ft mask gaps
+    exact ⟨by rw [e1], e2, rfl, rfl⟩
+  · rw [if_neg hc, if_neg (fun h => hc ((weedCond_iff tf ft mask gaps).mp h))]
+    exact ⟨rfl, hg, rfl, rfl⟩
+
+theorem modesWeed_abs (a : Arr) (hg : Good a) (wk : Option (List Nat)) (rev : Bool) (tf : Nat) (famb : Bool)
+    (ft : FilterType) (mask gaps : Bool) :
+    specStep a.abs a.k a.rc (.weed wk rev tf famb ft mask gaps)
+        = some (Modes.weed a wk rev tf famb ft mask gaps).abs
+    ∧ Good (Modes.weed a wk rev tf famb ft mask gaps)
+    ∧ (Modes.weed a wk rev tf famb ft mask gaps).k = a.k
+    ∧ (Modes.weed a wk rev tf famb ft mask gaps).rc = a.rc := by
+  cases wk with
+  | none => exact postFilter_abs a hg tf famb ft mask gaps
+  | some ks =>
+    have h := postFilter_abs (a.weed ks rev)
+      ⟨Props.C13.weed_WF a hg.1 ks rev, weed_cellsGE a hg.2 ks rev⟩ tf famb ft mask gaps
+    rw [Props.C13.weed_abs a hg.1 ks rev] at h
+    exact h
+
+/-- the two semantics, step by step: both refuse, or both succeed with matching results -/
+theorem step_spec (W : Nat) (a : Arr) (op : Op) (hg : Good a) (hop : OpGood op) :
+    (step W a op = none ∧ specStep a.abs a.k a.rc op = none)
+    ∨ ∃ a', step W a op = some a' ∧ specStep a.abs a.k a.rc op = some a'.abs
+        ∧ Good a' ∧ a'.k = a.k ∧ a'.rc = a.rc := by
+  cases op with
+  | reload => exact Or.inr ⟨a, rfl, rfl, hg, rfl, rfl⟩
+  | weed wk rev tf famb ft mask gaps =>
+    obtain ⟨h1, h2, h3, h4⟩ := modesWeed_abs a hg wk rev tf famb ft mask gaps
+    exact Or.inr ⟨_, rfl, h1, h2, h3, h4⟩
+  | delete names =>
+    cases hd : a.deleteSamples names with
+    | none =>
+      refine Or.inl ⟨hd, ?_⟩
+      have := (Props.C08.T08_refuse a names).mp hd
+      rw [specStep_delete]
+      exact if_pos this
+    | some a' =>
+      refine Or.inr ⟨a', hd, ?_, ?_, ?_, ?_⟩
+      · have hne : ¬ (names = [] ∨ names.length = a.names.length ∨ ∃ n ∈ names, n ∉ a.names) := by
+          intro h
+          rw [(Props.C08.T08_refuse a names).mpr h] at hd
+          cases hd
+        rw [specStep_delete, (Props.C08.T08_delete_abs a a' names hd).1]
+        exact if_neg hne
+      · refine ⟨(Props.C08.T08_delete_abs a a' names hd).2.2.2 hg.1, ?_⟩
+        rw [deleteSamples_some hd]
+        exact deleteResult_cellsGE a hg.2 names
+      · rw [deleteSamples_some hd]; rfl
+      · rw [deleteSamples_some hd]; rfl
+  | merge others =>
+    by_cases hall : ∀ b ∈ others, b.k = a.k ∧ b.rc = a.rc
+    · obtain ⟨r, hr, habs, _, hgo, hk, hrc, _⟩ := Props.C07.T07_merge W a others hg.1 hg.2
+        (fun b hb => ⟨(hop b hb).1, (hop b hb).2, (hall b hb).1, (hall b hb).2⟩)
+      refine Or.inr ⟨r, ?_, ?_, ⟨hgo.wf, hgo.cellsGE⟩, hk, hrc⟩
+      · show (Modes.merge W a others).toOption = some r
+        rw [hr]; rfl
+      · rw [specStep_merge, if_pos hall, habs]
+    · refine Or.inl ⟨?_, ?_⟩
+      · have : ∃ b ∈ others, b.k ≠ a.k ∨ b.rc ≠ a.rc := by
+          apply Classical.byContradiction
+          intro hne
+          apply hall
+          intro b hb
+          refine ⟨Classical.byContradiction fun h => hne ⟨b, hb, Or.inl h⟩,
+            Classical.byContradiction fun h => hne ⟨b, hb, Or.inr h⟩⟩
+        obtain ⟨e, he⟩ := Props.C07.T07_refuse_merge W a others this
+        show (Modes.merge W a others).toOption = none
+        rw [he]; rfl
+      · rw [specStep_merge]
+        exact if_neg hall
+
+/-- **T10_refine.** For a good file and a command whose other input files are good, the program
+refuses exactly when the documented effect is undefined, and otherwise the table of the written
+file is the documented effect applied to the table of the input; the written file is good again and
+keeps `k` and the strand mode. -/
+theorem T10_refine (W : Nat) (a : Arr) (op : Op) (hg : Good a) (hop : OpGood op) :
+    (step W a op = none ↔ specStep a.abs a.k a.rc op = none)
+    ∧ ∀ a', step W a op = some a' →
+        specStep a.abs a.k a.rc op = some a'.abs ∧ Good a' ∧ a'.k = a.k ∧ a'.rc = a.rc := by
+  rcases step_spec W a op hg hop with ⟨h1, h2⟩ | ⟨a', h1, h2, h3, h4, h5⟩
+  · refine ⟨⟨fun _ => h2, fun _ => h1⟩, ?_⟩
+    intro a' h; rw [h1] at h; cases h
+  · refine ⟨⟨fun h => ?_, fun h => ?_⟩, ?_⟩
+    · rw [h1] at h; cases h
+    · rw [h2] at h; cases h
+    intro a'' h
+    rw [h1] at h
+    cases h
+    exact ⟨h2, h3, h4, h5⟩
+
+/-- `reload` is the identity on both sides -/
+theorem T10_reload (W : Nat) (a : Arr) (t : Table) (k : Nat) (rc : Bool) :
+    step W a .reload = some a ∧ specStep t k rc .reload = some t := ⟨rfl, rfl⟩
+
+/-! ## Histories -/
+
+/-- run a list of commands; a refused command leaves the file as it was -/
+def run (W : Nat) (a : Arr) : List Op → Arr
+  | [] => a
+  | op :: ops => run W ((step W a op).getD a) ops
+
+def specRun (t : Table) (k : Nat) (rc : Bool) : List Op → Table
+  | [] => t
+  | op :: ops => specRun ((specStep t k rc op).getD t) k rc ops
+
+/-- **T10_history.** After any list of commands (any length, refused ones skipped) the table of the
+file is the table obtained by applying the documented effects in order to the table of the start
+file; the file is good, `k` and the strand mode are those of the start file. -/
+theorem T10_history (W : Nat) (ops : List Op) (a : Arr) (hg : Good a) (hops : ∀ op ∈ ops, OpGood op) :
+    (run W a ops).abs = specRun a.abs a.k a.rc ops ∧ Good (run W a ops)
+      ∧ (run W a ops).k = a.k ∧ (run W a ops).rc = a.rc := by
+  induction ops generalizing a with
+  | nil => exact ⟨rfl, hg, rfl, rfl⟩
+  | cons op ops ih =>
+    have hop := hops op (List.mem_cons_self ..)
+    have hrest : ∀ o ∈ ops, OpGood o := fun o ho => hops o (List.mem_cons_of_mem _ ho)
+    unfold run specRun
+    rcases step_spec W a op hg hop with ⟨h1, h2⟩ | ⟨a', h1, h2, h3, h4, h5⟩
+    · rw [h1, h2]
+      exact ih a hg hrest
+    · rw [h1, h2]
+      simp only [Option.getD_some]
+      obtain ⟨e1, e2, e3, e4⟩ := ih a' h3 hrest
+      rw [h4, h5] at e1
+      exact ⟨e1, e2, e3.trans h4, e4.trans h5⟩
+
+/-- every prefix of the history is related as well (the statement "at every point") -/
+theorem T10_history_prefix (W : Nat) (ops : List Op) (a : Arr) (hg : Good a) (hops : ∀ op ∈ ops, OpGood op)
+    (n : Nat) :
+    (run W a (ops.take n)).abs = specRun a.abs a.k a.rc (ops.take n) ∧ Good (run W a (ops.take n)) := by
+  have := T10_history W (ops.take n) a hg (fun op h => hops op (List.mem_of_mem_take h))
+  exact ⟨this.1, this.2.1⟩
+
+/-! ## Observers depend only on the table, up to row order -/
+
+/-- two optional tables: both absent, or both present and equal up to row order -/
+def OptEquiv : Option Table → Option Table → Prop
+  | none, none => True
+  | some s, some t => s.Equiv t
+  | _, _ => False
+
+/-- (i) `ska align`: the emitted columns (one list of cells over all samples per column) of the two
+files are permutations of each other, both outputs carry the same names in the same order, and the
+sequence of sample `i` is read off position `i` of those columns — so all samples see the same
+permutation of columns. Model-level row test (`alignColumnsI`), no hypothesis on the cells. -/
+theorem T10_obs_align_I (a₁ a₂ : Arr) (he : a₁.abs.Equiv a₂.abs)
+    (t : Nat) (ft : FilterType) (mask gaps famb : Bool) :
+    (Props.C06.alignColumnsI a₁.abs t famb ft mask gaps).Perm (Props.C06.alignColumnsI a₂.abs t famb ft mask gaps)
+    ∧ Modes.align a₁ t ft mask gaps famb = a₁.names.zipIdx.map (fun ni =>
+        (ni.1, (Props.C06.alignColumnsI a₁.abs t famb ft mask gaps).map (fun col => col.getD ni.2 GAP)))
+    ∧ Modes.align a₂ t ft mask gaps famb = a₁.names.zipIdx.map (fun ni =>
+        (ni.1, (Props.C06.alignColumnsI a₂.abs t famb ft mask gaps).map (fun col => col.getD ni.2 GAP))) := by
+  refine ⟨alignColumnsI_perm he t famb ft mask gaps, Props.C06.T06_align_I a₁ t ft mask gaps famb, ?_⟩
+  have hn : a₁.names = a₂.names := he.1
+  rw [hn]
+  exact Props.C06.T06_align_I a₂ t ft mask gaps famb
+
+/-- (i) the same against the specification `Table.alignColumns`, for files with cells `≥ '-'` -/
+theorem T10_obs_align (a₁ a₂ : Arr) (he : a₁.abs.Equiv a₂.abs) (hc₁ : a₁.CellsGE) (hc₂ : a₂.CellsGE)
+    (t : Nat) (ft : FilterType) (mask gaps famb : Bool) :
+    (a₁.abs.alignColumns t famb (toSite ft) mask gaps).Perm (a₂.abs.alignColumns t famb (toSite ft) mask gaps)
+    ∧ Modes.align a₁ t ft mask gaps famb = a₁.names.zipIdx.map (fun ni =>
+        (ni.1, (a₁.abs.alignColumns t famb (toSite ft) mask gaps).map (fun col => col.getD ni.2 GAP)))
+    ∧ Modes.align a₂ t ft mask gaps famb = a₁.names.zipIdx.map (fun ni =>
+        (ni.1, (a₂.abs.alignColumns t famb (toSite ft) mask gaps).map (fun col => col.getD ni.2 GAP))) := by
+  refine ⟨alignColumns_perm he t famb (toSite ft) mask gaps, Props.C06.T06_align a₁ hc₁ t ft mask gaps famb, ?_⟩
+  have hn : a₁.names = a₂.names := he.1
+  rw [hn]
+  exact Props.C06.T06_align a₂ hc₂ t ft mask gaps famb
+
+/-- (i) record by record: as many records, the `n`-th records have the same name and their
+sequences are permutations of each other -/
+theorem T10_obs_align_records (a₁ a₂ : Arr) (he : a₁.abs.Equiv a₂.abs)
+    (t : Nat) (ft : FilterType) (mask gaps famb : Bool) :
+    (Modes.align a₁ t ft mask gaps famb).length = (Modes.align a₂ t ft mask gaps famb).length
+    ∧ ∀ (n : Nat) (r₁ r₂ : String × List UInt8), (Modes.align a₁ t ft mask gaps famb)[n]? = some r₁ →
+        (Modes.align a₂ t ft mask gaps famb)[n]? = some r₂ → r₁.1 = r₂.1 ∧ r₁.2.Perm r₂.2 := by
+  obtain ⟨hp, e1, e2⟩ := T10_obs_align_I a₁ a₂ he t ft mask gaps famb
+  rw [e1, e2]
+  refine ⟨by rw [List.length_map, List.length_map], ?_⟩
+  intro n r₁ r₂ h1 h2
+  rw [List.getElem?_map] at h1 h2
+  cases hx : a₁.names.zipIdx[n]? with
+  | none => rw [hx] at h1; cases h1
+  | some x =>
+    rw [hx] at h1 h2
+    cases h1; cases h2
+    exact ⟨rfl, hp.map _⟩
+
+/-- (ii) `ska distance`: identical output -/
+theorem T10_obs_distance (a₁ a₂ : Arr) (h₁ : a₁.WF) (h₂ : a₂.WF) (he : a₁.abs.Equiv a₂.abs)
+    (t : Nat) (ge1 filt : Bool) :
+    Modes.distance a₁ t ge1 filt = Modes.distance a₂ t ge1 filt := by
+  have hn : a₁.names = a₂.names := he.1
+  have hv := variants_perm h₁.lenV h₂.lenV he.2
+  obtain ⟨b₁, hn₁, hv₁, hd₁⟩ := DM.modes_distance_struct a₁ (Nat.le_of_eq h₁.lenV) t ge1 filt
+  obtain ⟨b₂, hn₂, hv₂, hd₂⟩ := DM.modes_distance_struct a₂ (Nat.le_of_eq h₂.lenV) t ge1 filt
+  rw [hd₁, hd₂, hn, cstOf_perm hv]
+  congr 1
+  apply Props.C14.T14_perm_rows
+  · rw [hn₁, hn₂, hn]
+  · rw [hv₁, hv₂]
+    exact V3_perm hv
+
+/-- (iii) `ska delete`: refused for both or for neither, and the written tables agree up to row order -/
+theorem T10_obs_delete (a₁ a₂ : Arr) (he : a₁.abs.Equiv a₂.abs) (del : List String) :
+    OptEquiv ((Modes.delete a₁ del).map Arr.abs) ((Modes.delete a₂ del).map Arr.abs) := by
+  have hn : a₁.names = a₂.names := he.1
+  have href : a₁.deleteSamples del = none ↔ a₂.deleteSamples del = none := by
+    rw [Props.C08.T08_refuse, Props.C08.T08_refuse, hn]
+  show OptEquiv ((a₁.deleteSamples del).map Arr.abs) ((a₂.deleteSamples del).map Arr.abs)
+  cases h1 : a₁.deleteSamples del with
+  | none => rw [href.mp h1]; exact True.intro
+  | some r₁ =>
+    cases h2 : a₂.deleteSamples del with
+    | none => rw [href.mpr h2] at h1; cases h1
+    | some r₂ =>
+      show r₁.abs.Equiv r₂.abs
+      rw [(Props.C08.T08_delete_abs a₁ r₁ del h1).1, (Props.C08.T08_delete_abs a₂ r₂ del h2).1]
+      exact deleteSamples_equiv he del
+
+/-- (iv) weeding (`Arr.weed`): the written tables agree up to row order -/
+theorem T10_obs_weed (a₁ a₂ : Arr) (h₁ : a₁.WF) (h₂ : a₂.WF) (he : a₁.abs.Equiv a₂.abs)
+    (ks : List Nat) (rev : Bool) : (a₁.weed ks rev).abs.Equiv (a₂.weed ks rev).abs := by
+  rw [Props.C13.weed_abs a₁ h₁, Props.C13.weed_abs a₂ h₂]
+  exact weed_equiv he ks rev
+
+/-- (v) `ska nk`: the same per-sample k-mer counts, the same number of k-mers, and the listed
+k-mers / rows are permutations of each other -/
+theorem T10_obs_nk (a₁ a₂ : Arr) (h₁ : a₁.WF) (h₂ : a₂.WF) (he : a₁.abs.Equiv a₂.abs) :
+    a₁.nSampleKmers = a₂.nSampleKmers ∧ a₁.kmers.length = a₂.kmers.length
+    ∧ a₁.kmers.Perm a₂.kmers ∧ a₁.variants.Perm a₂.variants
+    ∧ (a₁.kmers.zip a₁.variants).Perm (a₂.kmers.zip a₂.variants) := by
+  have hn : a₁.names = a₂.names := he.1
+  have hv := variants_perm h₁.lenV h₂.lenV he.2
+  have hk := kmers_perm h₁.lenV h₂.lenV he.2
+  refine ⟨?_, hk.length_eq, hk, hv, he.2⟩
+  unfold Arr.nSampleKmers Arr.column
+  rw [hn]
+  apply List.map_congr_left
+  intro i _
+  exact ((hv.map _).filter _).length_eq
+
+/-! ### the documented effects are well defined on tables up to row order -/
+
+theorem filterMask_equiv {s t : Table} (h : s.Equiv t) (tf : Nat) (famb : Bool) (ft : FilterType)
+    (mask gaps : Bool) : (filterMask s tf famb ft mask gaps).Equiv (filterMask t tf famb ft mask gaps) :=
+  ⟨h.1, (h.2.filter _).map _⟩
+
+theorem OptEquiv.refl_some {s t : Table} (h : s.Equiv t) : OptEquiv (some s) (some t) := h
+
+/-- `specStep` maps tables that agree up to row order to tables that agree up to row order, and
+refuses for both or for neither (distinct keys are needed for `merge` only) -/
+theorem specStep_equiv {s t : Table} (h : s.Equiv t) (hs : Table.WF s) (k : Nat) (rc : Bool) (op : Op)
+    (hop : OpGood op) : OptEquiv (specStep s k rc op) (specStep t k rc op) := by
+  cases op with
+  | reload => exact h
+  | merge others =>
+    rw [specStep_merge, specStep_merge]
+    by_cases hall : ∀ b ∈ others, b.k = k ∧ b.rc = rc
+    · rw [if_pos hall, if_pos hall]
+      refine (foldl_concat_equiv (others.map Arr.abs) ?_ h hs).1
+      intro u hu
+      obtain ⟨b, hb, rfl⟩ := List.mem_map.mp hu
+      exact Arr.abs_wf (hop b hb).1
+    · rw [if_neg hall, if_neg hall]
+      exact True.intro
+  | delete names =>
+    rw [specStep_delete, specStep_delete, h.1]
+    by_cases hc : names = [] ∨ names.length = t.names.length ∨ ∃ n ∈ names, n ∉ t.names
+    · rw [if_pos hc, if_pos hc]; exact True.intro
+    · rw [if_neg hc, if_neg hc]
+      exact deleteSamples_equiv h names
+  | weed wk rev tf famb ft mask gaps =>
+    clear hop
+    have h1 : (match wk with | some ks => s.weed ks rev | none => s).Equiv
+        (match wk with | some ks => t.weed ks rev | none => t) := by
+      cases wk with
+      | none => exact h
+      | some ks => exact weed_equiv h ks rev
+    rw [specStep_weed, specStep_weed]
+    by_cases hc : tf > 0 ∨ ft ≠ .noFilter ∨ mask = true ∨ gaps = true
+    · rw [if_pos hc, if_pos hc]
+      exact filterMask_equiv h1 tf famb ft mask gaps
+    · rw [if_neg hc, if_neg hc]
+      exact h1
+
+/-- any further command (`merge`, `delete`, `weed` with all its options, `reload`) as an observer:
+two good files with the same table up to row order, the same `k` and strand mode, are both refused
+or both rewritten to files whose tables agree up to row order (`W`, the stored integer width, is
+irrelevant) -/
+theorem T10_obs_step (W₁ W₂ : Nat) (a₁ a₂ : Arr) (hg₁ : Good a₁) (hg₂ : Good a₂) (he : a₁.abs.Equiv a₂.abs)
+    (hk : a₁.k = a₂.k) (hrc : a₁.rc = a₂.rc) (op : Op) (hop : OpGood op) :
+    OptEquiv ((step W₁ a₁ op).map Arr.abs) ((step W₂ a₂ op).map Arr.abs) := by
+  have hs := specStep_equiv he (Arr.abs_wf hg₁.1) a₁.k a₁.rc op hop
+  rw [hk, hrc] at hs
+  rcases step_spec W₁ a₁ op hg₁ hop with ⟨x1, x2⟩ | ⟨r₁, x1, x2, _⟩ <;>
+    rcases step_spec W₂ a₂ op hg₂ hop with ⟨y1, y2⟩ | ⟨r₂, y1, y2, _⟩
+  · rw [x1, y1]; exact True.intro
+  · rw [hk, hrc] at x2; rw [x2, y2] at hs; exact hs.elim
+  · rw [hk, hrc] at x2; rw [x2, y2] at hs; exact hs.elim
+  · rw [hk, hrc] at x2; rw [x2, y2] at hs
+    rw [x1, y1]
+    exact hs
+
+/-- `ska weed` with all its options as an observer -/
+theorem T10_obs_modesWeed (a₁ a₂ : Arr) (hg₁ : Good a₁) (hg₂ : Good a₂) (he : a₁.abs.Equiv a₂.abs)
+    (wk : Option (List Nat)) (rev : Bool) (tf : Nat) (famb : Bool) (ft : FilterType) (mask gaps : Bool) :
+    (Modes.weed a₁ wk rev tf famb ft mask gaps).abs.Equiv (Modes.weed a₂ wk rev tf famb ft mask gaps).abs := by
+  have e1 := (modesWeed_abs a₁ hg₁ wk rev tf famb ft mask gaps).1
+  have e2 := (modesWeed_abs a₂ hg₂ wk rev tf famb ft mask gaps).1
+  have hs := specStep_equiv he (Arr.abs_wf hg₁.1) a₁.k a₁.rc (.weed wk rev tf famb ft mask gaps) True.intro
+  rw [e1] at hs
+  have e2' : specStep a₂.abs a₁.k a₁.rc (.weed wk rev tf famb ft mask gaps)
+      = some (Modes.weed a₂ wk rev tf famb ft mask gaps).abs := e2
+  rw [e2'] at hs
+  exact hs
+
+/-! ### all observers together -/
+
+/-- what "the two files cannot be told apart by later commands" means -/
+structure ObsEq (a₁ a₂ : Arr) : Prop where
+  names : a₁.names = a₂.names
+  /-- `ska align`: same names, emitted columns are permutations of each other -/
+  align : ∀ (t : Nat) (ft : FilterType) (mask gaps famb : Bool),
+    (Props.C06.alignColumnsI a₁.abs t famb ft mask gaps).Perm (Props.C06.alignColumnsI a₂.abs t famb ft mask gaps)
+    ∧ Modes.align a₁ t ft mask gaps famb = a₁.names.zipIdx.map (fun ni =>
+        (ni.1, (Props.C06.alignColumnsI a₁.abs t famb ft mask gaps).map (fun col => col.getD ni.2 GAP)))
+    ∧ Modes.align a₂ t ft mask gaps famb = a₁.names.zipIdx.map (fun ni =>
+        (ni.1, (Props.C06.alignColumnsI a₂.abs t famb ft mask gaps).map (fun col => col.getD ni.2 GAP)))
+  alignRecords : ∀ (t : Nat) (ft : FilterType) (mask gaps famb : Bool),
+    (Modes.align a₁ t ft mask gaps famb).length = (Modes.align a₂ t ft mask gaps famb).length
+    ∧ ∀ (n : Nat) (r₁ r₂ : String × List UInt8), (Modes.align a₁ t ft mask gaps famb)[n]? = some r₁ →
+        (Modes.align a₂ t ft mask gaps famb)[n]? = some r₂ → r₁.1 = r₂.1 ∧ r₁.2.Perm r₂.2
+  /-- `ska distance`: identical -/
+  distance : ∀ (t : Nat) (ge1 filt : Bool), Modes.distance a₁ t ge1 filt = Modes.distance a₂ t ge1 filt
+  /-- `ska delete` -/
+  delete : ∀ del : List String, OptEquiv ((Modes.delete a₁ del).map Arr.abs) ((Modes.delete a₂ del).map Arr.abs)
+  /-- weeding -/
+  weed : ∀ (ks : List Nat) (rev : Bool), (a₁.weed ks rev).abs.Equiv (a₂.weed ks rev).abs
+  /-- `ska nk` -/
+  nk : a₁.nSampleKmers = a₂.nSampleKmers ∧ a₁.kmers.length = a₂.kmers.length
+    ∧ a₁.kmers.Perm a₂.kmers ∧ a₁.variants.Perm a₂.variants
+    ∧ (a₁.kmers.zip a₁.variants).Perm (a₂.kmers.zip a₂.variants)
+
+/-- **T10_obs.** Two well-formed files whose tables agree up to row order give the same results in
+`align` (up to one common permutation of the columns), `distance` (identical), `delete`, `weed`
+(tables up to row order) and `nk`. -/
+theorem T10_obs (a₁ a₂ : Arr) (h₁ : a₁.WF) (h₂ : a₂.WF) (he : a₁.abs.Equiv a₂.abs) : ObsEq a₁ a₂ where
+  names := he.1
+  align := T10_obs_align_I a₁ a₂ he
+  alignRecords := T10_obs_align_records a₁ a₂ he
+  distance := T10_obs_distance a₁ a₂ h₁ h₂ he
+  delete := T10_obs_delete a₁ a₂ he
+  weed := T10_obs_weed a₁ a₂ h₁ h₂ he
+  nk := T10_obs_nk a₁ a₂ h₁ h₂ he
+
+/-- **T10_history_obs.** Two histories (different start files, different commands, different
+lengths) whose documented tables agree up to row order end in files that later commands cannot tell
+apart. -/
+theorem T10_history_obs (W₁ W₂ : Nat) (a b : Arr) (ops₁ ops₂ : List Op) (hga : Good a) (hgb : Good b)
+    (ho₁ : ∀ op ∈ ops₁, OpGood op) (ho₂ : ∀ op ∈ ops₂, OpGood op)
+    (he : (specRun a.abs a.k a.rc ops₁).Equiv (specRun b.abs b.k b.rc ops₂)) :
+    ObsEq (run W₁ a ops₁) (run W₂ b ops₂) := by
+  obtain ⟨e1, g1, _⟩ := T10_history W₁ ops₁ a hga ho₁
+  obtain ⟨e2, g2, _⟩ := T10_history W₂ ops₂ b hgb ho₂
+  rw [← e1, ← e2] at he
+  exact T10_obs _ _ g1.1 g2.1 he
+
+/-- a history versus a fresh file with the same content -/
+theorem T10_history_fresh (W : Nat) (a b : Arr) (ops : List Op) (hga : Good a) (ho : ∀ op ∈ ops, OpGood op)
+    (hb : b.WF) (he : (specRun a.abs a.k a.rc ops).Equiv b.abs) : ObsEq (run W a ops) b := by
+  obtain ⟨e1, g1, _⟩ := T10_history W ops a hga ho
+  rw [← e1] at he
+  exact T10_obs _ _ g1.1 hb he
+
+/-- … and any further rewriting command treats the two files alike (same `k` and strand mode) -/
+theorem T10_history_obs_step (W₁ W₂ W₁' W₂' : Nat) (a b : Arr) (ops₁ ops₂ : List Op) (hga : Good a) (hgb : Good b)
+    (ho₁ : ∀ op ∈ ops₁, OpGood op) (ho₂ : ∀ op ∈ ops₂, OpGood op)
+    (he : (specRun a.abs a.k a.rc ops₁).Equiv (specRun b.abs b.k b.rc ops₂))
+    (hk : a.k = b.k) (hrc : a.rc = b.rc) (op : Op) (hop : OpGood op) :
+    OptEquiv ((step W₁' (run W₁ a ops₁) op).map Arr.abs) ((step W₂' (run W₂ b ops₂) op).map Arr.abs) := by
+  obtain ⟨e1, g1, k1, r1⟩ := T10_history W₁ ops₁ a hga ho₁
+  obtain ⟨e2, g2, k2, r2⟩ := T10_history W₂ ops₂ b hgb ho₂
+  rw [← e1, ← e2] at he
+  exact T10_obs_step W₁' W₂' _ _ g1 g2 he (by rw [k1, k2, hk]) (by rw [r1, r2, hrc]) op hop
+
+/-- the same list of commands applied to two good files with the same content: same content after -/
+theorem T10_run_equiv (W₁ W₂ : Nat) (ops : List Op) (a b : Arr) (hga : Good a) (hgb : Good b)
+    (he : a.abs.Equiv b.abs) (hk : a.k = b.k) (hrc : a.rc = b.rc) (ho : ∀ op ∈ ops, OpGood op) :
+    (run W₁ a ops).abs.Equiv (run W₂ b ops).abs := by
+  induction ops generalizing a b with
+  | nil => exact he
+  | cons op ops ih =>
+    have hop := ho op (List.mem_cons_self ..)
+    have hrest : ∀ o ∈ ops, OpGood o := fun o h => ho o (List.mem_cons_of_mem _ h)
+    have hs := T10_obs_step W₁ W₂ a b hga hgb he hk hrc op hop
+    unfold run
+    rcases step_spec W₁ a op hga hop with ⟨x1, _⟩ | ⟨r₁, x1, _, gx, kx, rx⟩ <;>
+      rcases step_spec W₂ b op hgb hop with ⟨y1, _⟩ | ⟨r₂, y1, _, gy, ky, ry⟩
+    · rw [x1, y1]; exact ih a b hga hgb he hk hrc hrest
+    · rw [x1, y1] at hs; exact hs.elim
+    · rw [x1, y1] at hs; exact hs.elim
+    · rw [x1, y1] at hs
+      rw [x1, y1]
+      exact ih r₁ r₂ gx gy hs (by rw [kx, ky, hk]) (by rw [rx, ry, hrc]) hrest
+
+/-- the alignment written after a history is a function of the documented table alone -/
+theorem T10_history_align (W : Nat) (ops : List Op) (a : Arr) (hg : Good a) (ho : ∀ op ∈ ops, OpGood op)
+    (t : Nat) (ft : FilterType) (mask gaps famb : Bool) :
+    Modes.align (run W a ops) t ft mask gaps famb
+      = (specRun a.abs a.k a.rc ops).names.zipIdx.map (fun ni =>
+          (ni.1, ((specRun a.abs a.k a.rc ops).alignColumns t famb (toSite ft) mask gaps).map
+            (fun col => col.getD ni.2 GAP))) := by
+  obtain ⟨e1, g1, _⟩ := T10_history W ops a hg ho
+  rw [← e1]
+  exact Props.C06.T06_align (run W a ops) g1.2 t ft mask gaps famb
+
+/-! ## Non-vacuity -/
+
+def exA : Arr := { k := 3, rc := true, names := ["s1", "s2"], kmers := [5, 7, 9], variants := [[65, 67], [45, 71], [84, 84]], counts := [2, 1, 2], kBits := 64 }
+def exB : Arr := { k := 3, rc := true, names := ["t1"], kmers := [9, 2, 5], variants := [[65], [67], [71]], counts := [1, 1, 1], kBits := 64 }
+/-- shares the sample name `s1` with `exA` and holds an ambiguity code (`R` = 82) -/
+def exC : Arr := { k := 3, rc := true, names := ["u1", "s1"], kmers := [1, 2, 7], variants := [[65, 45], [82, 67], [45, 71]], counts := [1, 2, 1], kBits := 64 }
+def exK : Arr := { exB with k := 5 }
+
+theorem exA_good : Good exA := ⟨by decide, by unfold Arr.CellsGE; decide⟩
+theorem exB_good : Good exB := ⟨by decide, by unfold Arr.CellsGE; decide⟩
+theorem exC_good : Good exC := ⟨by decide, by unfold Arr.CellsGE; decide⟩
+theorem exK_good : Good exK := ⟨by decide, by unfold Arr.CellsGE; decide⟩
+
+/-- merge (creating a repeated sample name), reload, delete, a refused merge (other k), a refused
+delete (unknown name), weed, weed with filters and masking -/
+def exOps : List Op := [.merge [exB, exC], .reload, .delete ["s1"], .merge [exK], .delete ["zz"],
+  .weed (some [9, 1]) false 0 false .noFilter false false, .weed none false 2 false .noConst true false]
+
+theorem exOps_good : ∀ op ∈ exOps, OpGood op := by
+  intro op hop
+  simp only [exOps, List.mem_cons, List.not_mem_nil, or_false] at hop
+  rcases hop with rfl | rfl | rfl | rfl | rfl | rfl | rfl
+  · intro b hb
+    simp only [List.mem_cons, List.not_mem_nil, or_false] at hb
+    rcases hb with rfl | rfl
+    · exact exB_good
+    · exact exC_good
+  · exact True.intro
+  · exact True.intro
+  · intro b hb
+    simp only [List.mem_cons, List.not_mem_nil, or_false] at hb
+    subst hb
+    exact exK_good
+  · exact True.intro
+  · exact True.intro
+  · exact True.intro
+
+example : specRun exA.abs exA.k exA.rc exOps
+    = { names := ["s2", "t1", "u1", "s1"],
+        rows := [(5, [67, 71, 45, 45]), (7, [71, 45, 45, 71]), (2, [45, 67, 78, 67])] } := by decide +kernel
+
+example : (run 64 exA exOps).abs
+    = { names := ["s2", "t1", "u1", "s1"],
+        rows := [(5, [67, 71, 45, 45]), (7, [71, 45, 45, 71]), (2, [45, 67, 78, 67])] } := by
+  rw [(T10_history 64 exOps exA exA_good exOps_good).1]; decide +kernel
+
+/-- a freshly written file with the same content in another row order -/
+def exFresh : Arr := { k := 3, rc := true, names := ["s2", "t1", "u1", "s1"], kmers := [2, 5, 7], variants := [[45, 67, 78, 67], [67, 71, 45, 45], [71, 45, 45, 71]], counts := [3, 2, 2], kBits := 64 }
+
+example : ObsEq (run 64 exA exOps) exFresh := by
+  apply T10_history_fresh 64 exA exFresh exOps exA_good exOps_good (by decide)
+  refine ⟨by decide +kernel, ?_⟩
+  have : (specRun exA.abs exA.k exA.rc exOps).rows
+      = [(5, [67, 71, 45, 45]), (7, [71, 45, 45, 71]), (2, [45, 67, 78, 67])] := by decide +kernel
+  rw [this]
+  exact (List.perm_append_comm (l₁ := [((5 : Nat), ([67, 71, 45, 45] : List UInt8)), (7, [71, 45, 45, 71])])
+    (l₂ := [(2, [45, 67, 78, 67])]))
 
 end SkaModel.Props.C10
